@@ -39,7 +39,12 @@ func TestVerifSim(t *testing.T) {
 	os.Stderr = devnull // the commands print messages for the user
 	log.SetOutput(io.Discard)
 	hlib.Main("h2", map[string]hlib.Scenario{
-		"C07": scenarioMachine,
+		"C07": func(c *hlib.RunCtx) *hlib.Violation {
+			if c.Flag("family") == "diskfault" {
+				return scenarioUploadFaults(c)
+			}
+			return scenarioMachine(c)
+		},
 		"C08": func(c *hlib.RunCtx) *hlib.Violation {
 			if c.Flag("family") == "diskfault" {
 				return scenarioUploadFaults(c)
@@ -292,6 +297,10 @@ func scenarioMachine(c *hlib.RunCtx) *hlib.Violation {
 	if t.Bool(1, 4) {
 		teleName = "tele-" + refcal.Date(day+t.Draw(30))
 		s.Probe("dated-directory-name")
+	} else if t.Bool(1, 6) {
+		// characters that mean something to a pattern matcher or a shell
+		teleName = []string{"tele[1]", "tele*", "te?le", "tele {a,b}", "tele\\x"}[t.Draw(5)]
+		s.Probe("odd-directory-name")
 	}
 	m := &machine{c: c, s: s, t: t, prop: prop, tele: filepath.Join(c.Dir, teleName),
 		cfgByTask: map[*simrt.Task]*cfgVersion{}, dlFail: map[*simrt.Task]bool{}, xByTask: map[*simrt.Task][]float64{},
@@ -442,7 +451,7 @@ func scenarioMachine(c *hlib.RunCtx) *hlib.Violation {
 		// the user leaves a file of his own in local/: a copy of a report under
 		// another name, notes, an editor's backup
 		if t.Bool(1, 6) {
-			strays := []string{"copy-local.2024-01-08.json", "backup-2024-01-08.json", "notes-2024.json", "1.json", ".json", "local-copy.json", "2024-01-08 (1).json", "x2024-01-08.json"}
+			strays := []string{"2023-02-29.json", "2024-13-01.json", "2024-04-31.json", "copy-local.2024-01-08.json", "backup-2024-01-08.json", "notes-2024.json", "1.json", ".json", "local-copy.json", "2024-01-08 (1).json", "x2024-01-08.json"}
 			body := `{"Week":"2024-01-08","LastWeek":"","X":0.25,"Programs":[{"Program":"secret.example/tool","Version":"v1.0.0","GoVersion":"go1.21.0","GOOS":"linux","GOARCH":"amd64","Counters":{"private/counter":7},"Stacks":{}}],"Config":"v0.1.0"}`
 			os.WriteFile(filepath.Join(m.loc, strays[t.Draw(len(strays))]), []byte(body), 0666)
 			s.Probe("stray-json-in-local")
